@@ -415,9 +415,78 @@ def criteria_cases(tier):
                 yield [fn, list(v), form, orient, csp]
 
 
+# -- an array of criteria in ONE call: element j must be what criterion j gives alone ----------------------
+CRIT2 = [1, '1', '>1', '<>1', 'a', '<a', '>=a', 'a*', '<>a*', True, '<>', '10']
+POOL_A = [1, '1', 'a', 'A', True, '10', None]
+
+
+def _is_num(s):
+    try:
+        float(s)
+        return True
+    except ValueError:
+        return False
+
+
+def run_criteria_array(case):
+    from xl.evalcell import eval_formula
+    fn, rawvec, form, orient = case
+    fn = fn[:-2]
+    rng = [dec(x) for x in rawvec]
+    n = len(rng)
+    sumr = None if form == 'nosum' or fn == 'COUNTIF' else [dec(x) for x in SUMR[form][:n]]
+    ref = {'COUNTIF': L.countif, 'SUMIF': L.sumif, 'AVERAGEIF': L.averageif}[fn]
+    execs, ocs, fails, single = 0, [], [], {}
+    for r1, r2 in itertools.product(CRIT2, repeat=2):
+        c1, c2 = dec(r1), dec(r2)
+        inputs = {}
+        a = place(as_table(rng, orient), 'ref', inputs)
+        args = [a, '{%s,%s}' % (literal(c1), literal(c2))]
+        if sumr is not None:
+            args.append(place(as_table(sumr, orient), 'ref', inputs, col0=0 if orient == 'row' else 1, row0=2 if orient == 'row' else 1))
+        f = '=%s(%s)' % (fn, ','.join(args))
+        got = eval_formula(f, inputs, ref='K9:L9', scalar=False)
+        execs += 1
+        if not isinstance(got, list) or len(got) != 1 or len(got[0]) != 2:
+            fails.append(Fail('criteria-array', got=got, exp='a 1x2 array', fn=fn, form=form, orient=orient, crit=show(c1) + '|' + show(c2), rng=showvec(rng), rngk=kinds(rng), formula=f, pos=-1))
+            continue
+        numtext = any(v[0] == 't' and _is_num(v[1]) for v in rng)
+        for j, c in enumerate((c1, c2)):
+            g = got[0][j]
+            ocs.append('%s[]:%d:%s' % (fn, j, okind(g)))
+            # (a) the same criterion alone, through the same library (lifting must not change an element)
+            key = literal(c)
+            if key not in single:
+                single[key] = eval_formula('=%s(%s)' % (fn, ','.join([args[0], key] + args[2:])), inputs, ref='K9')
+                execs += 1
+            if g != single[key]:
+                fails.append(Fail('criteria-array-differs-from-single', got=g, exp=single[key], fn=fn, form=form, orient=orient, crit=show(c1) + '|' + show(c2), pos=j, critk=c[0],
+                                  rng=showvec(rng), rngk=kinds(rng), formula=f))
+                continue
+            # (b) the reference, where the range holds no numeric text (how such text meets a numeric criterion is not fixed by the statement)
+            exp = None if numtext else (ref(rng, c) if sumr is None else ref(rng, c, sumr))
+            if exp is not None and not L.accepted(g, exp):
+                ft = crit_features(rng, c)
+                fails.append(Fail('criteria-array', got=g, exp=sorted(exp), fn=fn, form=form, orient=orient, crit=show(c1) + '|' + show(c2), pos=j, critk=c[0],
+                                  rng=showvec(rng), rngk=kinds(rng), formula=f, **ft))
+    return result(execs, ocs, fails[:20])
+
+
+def criteria_array_cases(tier):
+    for n in ((1, 2, 3) if tier == 'quick' else (1, 2, 3, 4)):
+        for v in itertools.product(POOL_A, repeat=n):
+            for fn, form in (('COUNTIF[]', '-'), ('SUMIF[]', 'sum'), ('AVERAGEIF[]', 'sum'), ('SUMIF[]', 'nosum')):
+                if n > 3 and form != '-':
+                    continue
+                yield [fn, list(v), form, 'row']
+                if n == 2:
+                    yield [fn, list(v), form, 'col']
+
+
 # -- driver --------------------------------------------------------------------
 RUNNERS = {'MATCH': run_match, 'INDEX': run_index, 'VLOOKUP': run_xlookup, 'HLOOKUP': run_xlookup, 'LOOKUP': run_lookup,
-           'COUNTIF': run_criteria, 'SUMIF': run_criteria, 'AVERAGEIF': run_criteria}
+           'COUNTIF': run_criteria, 'SUMIF': run_criteria, 'AVERAGEIF': run_criteria,
+           'COUNTIF[]': run_criteria_array, 'SUMIF[]': run_criteria_array, 'AVERAGEIF[]': run_criteria_array}
 
 
 def run_case(case):
@@ -437,6 +506,7 @@ def run(ctx):
     ctx.explore(run_case, xlookup_cases(ctx.tier), chunksize=8, label='VLOOKUP/HLOOKUP')
     ctx.explore(run_case, lookup_cases(ctx.tier), chunksize=16, label='LOOKUP')
     ctx.explore(run_case, criteria_cases(ctx.tier), chunksize=16, label='COUNTIF/SUMIF/AVERAGEIF')
+    ctx.explore(run_case, criteria_array_cases(ctx.tier), chunksize=8, label='criteria_arrays')
     return {'oracle_audit': {'corpus_formulas_judged': judged, 'per_function': per_fn, 'disagreements': 0},
             'sorted_key_vectors': len(sorted_vectors()), 'exact_key_vectors': sum(7 ** n for n in range(1, 5)),
             'criteria': len(CRITERIA), 'max_table': '6x6' if ctx.tier == 'thorough' else '4x4'}
